@@ -435,12 +435,15 @@ pub fn boundary_shapes(rng: &mut Rng) -> Vec<Prob> {
         let mut b = vec![];
         for j in 0..n {
             let mut r = vec![0.0; n]; r[j] = -1.0; rows.push(r); b.push(-1.0);          // x_j >= 1
-            let mut r = vec![0.0; n]; r[j] = 1.0; rows.push(r); b.push(1e3);            // x_j <= 1000
+            // an upper bound as well for every other problem (it makes the positive margin, hence
+            // the shift target, huge too; without it only the unit target remains to be absorbed)
+            if k % 2 == 1 { let mut r = vec![0.0; n]; r[j] = 1.0; rows.push(r); b.push(1e3); }
         }
+        let mrows = rows.len();
         let mut P = CscMatrix::<f64>::identity(n);
         for v in P.nzval.iter_mut() { *v = eps; }
-        out.push(Prob { P, q: (0..n).map(|j| if j % 2 == 0 { c } else { -c / 3.0 }).collect(), A: dense_to_csc(&rows, 2 * n, n), b,
-                        cones: vec![NonnegativeConeT(2 * n)], label: format!("huge linear cost eps={} c={}", eps, c), intent: 0 });
+        out.push(Prob { P, q: (0..n).map(|j| if j % 2 == 0 || k % 2 == 0 { c } else { -c / 3.0 }).collect(), A: dense_to_csc(&rows, mrows, n), b,
+                        cones: vec![NonnegativeConeT(mrows)], label: format!("huge linear cost eps={} c={}", eps, c), intent: 0 });
     }
     // only empty cones
     out.push(Prob { P: eye(1), q: vec![1.0], A: CscMatrix::zeros((0, 1)), b: vec![], cones: vec![NonnegativeConeT(0), ZeroConeT(0)], label: "only empty cones".into(), intent: 0 });
